@@ -84,6 +84,12 @@ def chained_variants(rng, s):
 
 def run(ctx):
     lean_obligations(ctx)
+    from framework import safe_probe
+    from props.c12 import probe_names_like_machine_attributes
+    pf = safe_probe(probe_names_like_machine_attributes, f"{ctx.seed}:c14")
+    ctx.coverage["names_like_machine_attributes_cases"] = 30
+    if pf:
+        ctx.violation(ctx.write_replay("names_like_machine_attributes.txt", "\n".join(pf[:12]) + "\n"), pf[0][:200])
     ctx.coverage["rule"] = ("seeded random machines with 0-3 before x 0-3 on callbacks in every attachment style and "
                             "provider, return pool None/0/''/[]/[1,2]/()/{}/str/float, internal/self/multi-event "
                             "transitions, both engines; non-trivial = an executed transition had >=2 contributing "
